@@ -48,7 +48,8 @@ type NocopyCase struct {
 	IsBin     []bool  `json:"is_bin,omitempty"` // per value: binary instead of string
 	Slack     int     `json:"slack,omitempty"`  // linear buffer is this much longer than needed
 	NilWriter bool    `json:"nil_writer,omitempty"`
-	Struct    *FCCase `json:"struct,omitempty"` // struct level
+	SpareCap  int     `json:"spare_cap,omitempty"` // the linear buffer has this much capacity beyond its length (pooled / size-class buffers)
+	Struct    *FCCase `json:"struct,omitempty"`    // struct level
 }
 
 func checkNocopy(c NocopyCase, cv *cov) (v *evid.Violation) {
@@ -64,7 +65,7 @@ func checkNocopy(c NocopyCase, cv *cov) (v *evid.Violation) {
 			total, advertised := 0, 0
 			vals := make([][]byte, len(c.Vals))
 			for i, pv := range c.Vals {
-				if pv.L < 0 || pv.L > 1<<18 {
+				if pv.L < 0 || pv.L > 1<<18 || c.SpareCap < 0 || c.SpareCap > 1<<16 {
 					return
 				}
 				vals[i] = patternBytes(pv.S, pv.L)
@@ -93,7 +94,7 @@ func checkNocopy(c NocopyCase, cv *cov) (v *evid.Violation) {
 				v = evid.Failf("advertised no-copy lengths sum to %d, the copying encoding has %d bytes", advertised, total)
 				return
 			}
-			B := make([]byte, total+c.Slack)
+			B := make([]byte, total+c.Slack, total+c.Slack+c.SpareCap)
 			rec := &directRec{}
 			var w thrift.NocopyWriter
 			if !c.NilWriter {
@@ -137,13 +138,17 @@ func checkNocopy(c NocopyCase, cv *cov) (v *evid.Violation) {
 				nearThreshold = true
 			}
 		}
-		B := make([]byte, bl)
+		B := make([]byte, bl, bl+c.SpareCap)
 		rec := &directRec{}
 		var w thrift.NocopyWriter
 		if !c.NilWriter {
 			w = rec
 		}
 		n := px.FastWriteNocopy(B, w)
+		if c.NilWriter && len(m.extra) <= 1 && !bytes.Equal(B[:n], want) { // with >= 2 map entries the two runs may iterate in different orders
+			v = evid.Failf("%s: without a direct writer the no-copy path differs from the copying path at offset %d", kindNames[sc.Kind], firstDiff(B[:n], want))
+			return
+		}
 		if c.NilWriter {
 			if n != bl {
 				v = evid.Failf("%s: nil direct writer wrote %d, want %d", kindNames[sc.Kind], n, bl)
@@ -260,12 +265,16 @@ func verifySplice(B []byte, n int, rec *directRec, want []byte, callerVals [][]b
 func init() { register("c15_nocopy", checkNocopy) }
 
 func genNocopyLen(t *rapid.T, l string) int {
+	if rapid.IntRange(0, 39).Draw(t, l+"long") == 0 {
+		return rapid.SampledFrom([]int{65535, 65536, 65537, 70000, 131072}).Draw(t, l+"longLen")
+	}
 	return rapid.OneOf(rapid.IntRange(4080, 4112), rapid.IntRange(8176, 8208), rapid.IntRange(0, 12288), rapid.IntRange(0, 64), rapid.SampledFrom([]int{0, 1, 4095, 4096, 4097, 8191, 8192, 8193, 12288})).Draw(t, l)
 }
 
 func genNocopyCase(t *rapid.T) NocopyCase {
 	var c NocopyCase
 	c.NilWriter = rapid.IntRange(0, 5).Draw(t, "nilWriter") == 0
+	c.SpareCap = rapid.SampledFrom([]int{0, 0, 1, 5, 64, 4096}).Draw(t, "spareCap")
 	if rapid.Bool().Draw(t, "structLevel") {
 		sc := FCCase{Kind: rapid.SampledFrom([]int{0, 0, 1, 1, 2}).Draw(t, "kind")}
 		for i := range sc.S {
@@ -321,6 +330,7 @@ func TestC15_Windows(t *testing.T) {
 				NocopyCase{Vals: []PStr{{L: 3, S: 9}, {L: n, S: 3}}, IsBin: []bool{!bin, bin}},
 				NocopyCase{Vals: []PStr{{L: n, S: 4}, {L: 5000, S: 5}, {L: 1, S: 6}}, IsBin: []bool{bin, bin, !bin}},
 				NocopyCase{Vals: []PStr{{L: n, S: 7}}, IsBin: []bool{bin}, NilWriter: true},
+				NocopyCase{Vals: []PStr{{L: n, S: 8}, {L: 3, S: 1}}, IsBin: []bool{bin, bin}, SpareCap: 5},
 			)
 		}
 		for f := 0; f < 3; f++ {
